@@ -973,6 +973,13 @@ def frame_method(it, f, name, args, kwargs, node, fr):
         tgt.notes.append(("sort_index",))
         tgt.space = Space("sorted_index", parent=f.space, how="sort")
         return tgt
+    if name == "duplicated":
+        sub = argn(args, kwargs, 0, "subset")
+        keep = kwargs.get("keep", K("first"))
+        r = Val(call("duplicated", to_term(f), to_term(sub) if sub is not None else const(None), to_term(keep)), space=f.space, series=True)
+        r.lab = _lib.label_key(f)
+        r.is_mask_of = f
+        return r
     if name == "drop_duplicates":
         sub = argn(args, kwargs, 0, "subset")
         keep = kwargs.get("keep", K("first"))
@@ -1264,6 +1271,9 @@ def _runtime_dtype(d):
     if isinstance(d, Ref) or is_pyconst(d):
         return False
     return isinstance(d, (Val, Unk))
+
+
+from . import lib as _lib  # noqa: E402
 
 
 def arr_method(it, a, name, args, kwargs, node, fr):
